@@ -175,6 +175,20 @@ static std::vector<Rej> catalogue() {
     add("DataArray::appendRangeDimension(non-SI unit)", [](File &f) { A0(f).appendRangeDimension({1.0, 2.0}, "lbl", "foo"); });
     add("DataArray::appendSampledDimension(interval 0)", [](File &f) { A0(f).appendSampledDimension(0.0); });
     add("DataArray::appendSampledDimension(negative interval)", [](File &f) { A0(f).appendSampledDimension(-0.5); });
+    // units that only LOOK like SI after blanks are dropped or the micro sign is spelled out: whichever way the library
+    // decides, a refusal must come before the descriptor exists
+    {
+        const std::vector<std::pair<std::string, std::string>> odd = {{" ms", "leading blank"}, {"m s", "inner blank"}, {"ms ", "trailing blank"}, {"\xc2\xb5s", "micro sign"}, {"mus", "mu spelled out"}, {"mV/", "dangling operator"}, {"ms^", "dangling power"}, {"none", "the word none"}};
+        for (auto &u : odd) {
+            std::string un = u.first;
+            add("DataArray::appendRangeDimension(unit with " + u.second + ")", [un](File &f) { A0(f).appendRangeDimension({1.0, 2.0}, "lbl", un); });
+            add("DataArray::appendSampledDimension(unit with " + u.second + ")", [un](File &f) { A0(f).appendSampledDimension(1.0, "lbl", un); });
+            add("SampledDimension::unit(unit with " + u.second + ")", [un](File &f) { DataArray a = arrayWhere(f, [](DataArray &x) { return x.dimensionCount() > 0 && x.getDimension(1).dimensionType() == DimensionType::Sample; }); a.getDimension(1).asSampledDimension().unit(un); });
+            add("DataArray::unit(unit with " + u.second + ")", [un](File &f) { A0(f).unit(un); });
+            add("Tag::units(unit with " + u.second + ")", [un](File &f) { T0(f).units({un}); });
+            add("Property::unit(unit with " + u.second + ")", [un](File &f) { need(f.sectionCount() > 0); Section s = f.getSection(0); need(s.propertyCount() > 0); s.getProperty(0).unit(un); });
+        }
+    }
     add("DataArray::appendSampledDimension(non-SI unit)", [](File &f) { A0(f).appendSampledDimension(1.0, "lbl", "foo"); });
     add("DataArray::appendAliasRangeDimension(2-D array)", [](File &f) { arrayWhere(f, [](DataArray &a) { return a.dataExtent().size() == 2; }).appendAliasRangeDimension(); });
     add("DataArray::appendAliasRangeDimension(String array)", [](File &f) { arrayWhere(f, [](DataArray &a) { return a.dataType() == DataType::String && a.dimensionCount() == 0; }).appendAliasRangeDimension(); });
